@@ -87,9 +87,9 @@ Print Assumptions C16_flags_only_affect_diagnostics.
 
 (* the same for whole bodies, nested '.repeat' included: also the label fixup already applied *)
 Theorem C16_body_annotations_irrelevant :
-  forall fuel env F b1 b2 a,
+  forall budget fuel env F b1 b2 a c,
     nf_block b1 = nf_block b2 -> coh_block F b1 -> coh_block F b2 ->
-    same_result F (compile_block fuel env b1 a) (compile_block fuel env b2 a).
+    same_result F (compile_block budget fuel env b1 a c) (compile_block budget fuel env b2 a c).
 Proof. exact body_annotations_irrelevant. Qed.
 Print Assumptions C16_body_annotations_irrelevant.
 
@@ -97,22 +97,45 @@ Print Assumptions C16_body_annotations_irrelevant.
    rejects them; names resolve through the same [env] on both sides, i.e. no reference to an
    enclosing local label) without '.end' inside, compiling the ONE body tree n times, each time as
    the previous compilation left it and at its own running address, yields exactly what the body
-   written out n times yields -- same bytes, same success / failure.
+   written out n times yields -- same bytes, same success / failure -- PROVIDED both are compiled
+   with the total number of repetitions within the budget m (MAX_REPETITIONS = 65536 in the code,
+   [code_budget]; commit 5b48d07): [within m r] says the run ends normally with
+   Compiler.repetitions_compiled <= m, i.e. no iteration was refused.  Beyond the budget the
+   repeat is refused with 'value-out-of-bounds' while the written-out text, which has fewer
+   repetitions to count, need not be (Props/C16_findings.v).
    [coh_block false body] holds for every body as the parser makes it ([C16_fresh_body_coherent]). *)
 Definition no_end_in_body (body : list item) : Prop := has_end body = false.
 
 Theorem C16_repeat_unroll :
-  forall f env n body a,
+  forall m f env n body a c,
     no_end_in_body body -> coh_block false body ->
-    outcome_of (repeat_model (S f) env n body a) = outcome_of (unrolled (S f) env n body a).
+    within m (repeat_model (Some m) (S f) env n body a c) ->
+    within m (unrolled (Some m) (S f) env n body a c) ->
+    outcome_of (repeat_model (Some m) (S f) env n body a c) = outcome_of (unrolled (Some m) (S f) env n body a c).
 Proof. exact repeat_unroll. Qed.
 Print Assumptions C16_repeat_unroll.
 
-(* fuel_sufficient: the theorem above is not about two out-of-fuel results: with fuel S f and a body
+(* the bare mechanism (no budget): unconditional, and independent of the counters the two sides start from *)
+Theorem C16_repeat_unroll_no_budget :
+  forall f env n body a c c',
+    no_end_in_body body -> coh_block false body ->
+    outcome_of (repeat_model None (S f) env n body a c) = outcome_of (unrolled None (S f) env n body a c').
+Proof. exact repeat_unroll_free. Qed.
+Print Assumptions C16_repeat_unroll_no_budget.
+
+(* a budgeted run that ends within the budget is the run without a budget *)
+Theorem C16_budget_irrelevant_within :
+  forall m env fuel b a c bs k y d,
+    compile_block (Some m) fuel env b a c = Ok ((bs, k), y, d) -> k <= m ->
+    c <= k /\ compile_block None fuel env b a c = Ok ((bs, k), y, d).
+Proof. exact compile_block_agrees. Qed.
+Print Assumptions C16_budget_irrelevant_within.
+
+(* fuel_sufficient: the theorems above are not about two out-of-fuel results: with fuel S f and a body
    whose '.repeat's nest at most f deep ([depth]), neither side runs out of fuel *)
 Theorem C16_fuel_sufficient :
-  forall f env n body a, (depth body <= f)%nat ->
-    outcome_of (repeat_model (S f) env n body a) <> OFuel /\ outcome_of (unrolled (S f) env n body a) <> OFuel.
+  forall budget f env n body a c, (depth body <= f)%nat ->
+    outcome_of (repeat_model budget (S f) env n body a c) <> OFuel /\ outcome_of (unrolled budget (S f) env n body a c) <> OFuel.
 Proof. exact fuel_sufficient. Qed.
 Print Assumptions C16_fuel_sufficient.
 
@@ -235,14 +258,28 @@ Definition ex_body : list item :=
 
 Example C16_repeat_example :
   no_end_in_body ex_body /\ coh_block false ex_body /\
-  outcome_of (repeat_model 2 ex_env 2 ex_body 512)
+  outcome_of (repeat_model code_budget 2 ex_env 2 ex_body 512 0)
   = OOk [63; 28; 10; 0; 250; 255; 3; 1; 1; 1;   63; 28; 10; 0; 250; 255; 8; 1; 1; 1].
 Proof. split; [reflexivity|]. split; [apply coh_block_fresh; reflexivity | vm_compute; reflexivity]. Qed.
 
+(* the budget hypotheses hold for it: 2 repetitions on one side, none on the other, budget 65536 *)
+Example C16_within_example :
+  within 65536 (repeat_model (Some 65536) 2 ex_env 2 ex_body 512 0)
+  /\ within 65536 (unrolled (Some 65536) 2 ex_env 2 ex_body 512 0).
+Proof. split; vm_compute; do 4 eexists; (split; [reflexivity | discriminate]). Qed.
+
+(* the boundary, with a budget of 3: three repetitions are compiled, the fourth is refused *)
+Example C16_budget_boundary :
+  let one := [IByte [ex_num 7]] in
+  outcome_of (repeat_model (Some 3) 1 ex_env 3 one 512 0) = OOk [7; 7; 7]
+  /\ outcome_of (repeat_model (Some 3) 1 ex_env 4 one 512 0) = OFailed
+  /\ outcome_of (unrolled (Some 3) 1 ex_env 4 one 512 0) = OOk [7; 7; 7; 7].
+Proof. repeat split; vm_compute; reflexivity. Qed.
+
 (* the second copy of './2' does not reuse the first copy's cached value *)
 Example C16_cache_example :
-  exists b', repeat_model 2 ex_env 2 [IWord [Infix "/" Dot (ex_num 2) None]] 512
-             = Ok ([0; 1; 1; 1], b', []).
+  exists b', repeat_model code_budget 2 ex_env 2 [IWord [Infix "/" Dot (ex_num 2) None]] 512 0
+             = Ok (([0; 1; 1; 1], 2), b', []).
 Proof. eexists. vm_compute. reflexivity. Qed.
 
 Example C16_hoist_example :
